@@ -9,6 +9,11 @@ CHECKS = {
          "Every text of the enumerated families is lexed and parsed by the real code and checked for: no panic/abort, tree text = input, tokens tile the text, error ranges inside the text, determinism, and shape stability under trivia insertion. Small-scope exhaustive: nothing is sampled.",
          "Claims nothing beyond the enumerated families and the stated nesting depths (8 MiB stack).",
          "DESIGN.md §5 C12"),
+ "C20": ("model_checking",
+         "stateless exploration of thread schedules of the real ResourceRunner threads under a controlled scheduler (own baton scheduler behind the cargo-feature hooks), depth-first with iterated deviation/preemption bound; every schedule runs to completion and is judged against invariants (sum of private cycle counters = shared counter, paired variables equal, no cycle while paused, stop/join terminate, one retain save)",
+         "All interleavings, at the granularity of Mutex/Condvar/AtomicBool/spawn/join operations plus explicit loop-head and command-drain points, of 2-3 real resource threads and a controller thread, up to the completed deviation bound reported per scenario; deadlock = no enabled thread; livelock and step horizon reported.",
+         "Sequentially consistent interleavings only (the code uses SeqCst atomics and mutexes), no spurious condvar wake-ups, ManualClock per resource, deviation-bounded (preemptions and departures from fair order at yield points each cost one).",
+         "DESIGN.md §2.3, §5 C20"),
 }
 
 NOT_APPLICABLE = {
